@@ -129,6 +129,9 @@ def h_adjust(ctx, n, k, n_params, special_rows=(0,), reuse=False, requested=Fals
                 res = pp.adjust_posterior(sample, model, snames, adjustment=adjm)
             else:
                 res = pp.adjust_posterior(sample, model, snames, parameter_names=[pnames[p] for p in req], adjustment=adjm)
+            # repeated use: the fitted adjustment is applied once more (adjust() is public) - it must start from the
+            # sample's accepted values again, not from what the first application left behind
+            res_again = adjm.adjust()
     fits = list(StubLR.fits)
     order = list(range(n_params)) if req is None else req
     ctx.claim('one_regression_per_parameter', len(fits) == len(order))
@@ -149,6 +152,8 @@ def h_adjust(ctx, n, k, n_params, special_rows=(0,), reuse=False, requested=Fals
         for r, i in enumerate(rows):
             want = TH[p][i] - Sum([(S[j][i] - sobs[j]) * ref.coef_[j] for j in range(k)])
             ctx.claim_poly('%s_row%d_is_theta_minus_slope_times_summary_difference' % (pn, i), adj[r], want)
+            ctx.claim_poly('%s_row%d_same_value_when_the_fitted_adjustment_is_applied_again' % (pn, i),
+                           res_again.outputs[pn][r], want)
     ctx.claim('result_is_a_sample_with_the_parameters', res.parameter_names == [pnames[p] for p in order])
 
 
